@@ -208,6 +208,26 @@ class NPProxy:
             return h(a)
         return np.zeros(a_.shape, dtype=bool) if a_.shape else False
 
+    def isclose(self, a, b, rtol=1e-05, atol=1e-08, equal_nan=False):
+        a_, b_ = np.asarray(a), np.asarray(b)
+        if a_.dtype != object and b_.dtype != object:
+            return np.isclose(a, b, rtol=rtol, atol=atol, equal_nan=equal_nan)
+        a_, b_ = np.broadcast_arrays(np.asarray(a, dtype=object), np.asarray(b, dtype=object))
+        out = np.empty(a_.shape, dtype=object)
+        for idx in np.ndindex(*a_.shape):
+            x, y = a_[idx], b_[idx]
+            x = x if isinstance(x, SReal) else SReal(*lift(x))
+            y = y if isinstance(y, SReal) else SReal(*lift(y))
+            out[idx] = abs(x - y) <= atol + rtol * abs(y)
+        return out if a_.shape else out[()]
+
+    def allclose(self, a, b, rtol=1e-05, atol=1e-08, equal_nan=False):
+        r = self.isclose(a, b, rtol=rtol, atol=atol)
+        return all(bool(v) for v in np.ravel(np.asarray(r, dtype=object)))
+
+    def sign(self, a):
+        return self._apply(a, lambda v: SReal.const(1) if bool(v > 0) else (SReal.const(-1) if bool(v < 0) else SReal.const(0)), np.sign)
+
     def isinf(self, a):
         a_ = np.asarray(a)
         if a_.dtype != object:
